@@ -6,8 +6,8 @@
   CVR (what the function reads / creates)       `Rec`: `id`, `styles` = keys of `votes` in insertion order
                                                 (phantoms are created with `votes={}` and get `votes[con.id] = {}`),
                                                 `phantom`
-  audit.strata (exactly one stratum)            `useStyle`, `maxCards`   (more than one → NotImplementedError,
-                                                exercised by the harness, not a model input)
+  audit.strata (exactly one stratum)            `useStyle`, `maxCards`   (more than one stratum raises
+                                                NotImplementedError at L679-680; not a model input)
   contests : dict of Contest                    `List Contest` in dict order; `cards : Option Nat` (`None` = not
                                                 specified), `cvrs`
   con.cvrs = int(np.sum([... not cvr.phantom])) number of non-phantom records listing the contest (L686-688)
